@@ -20,7 +20,17 @@ package packageimport
 //     Pull does after the image-name overrides, which are empty here) but picks its response up
 //     only after the broadcast has finished - the schedule in which a caller is descheduled
 //     between registering and receiving.  The broadcast must not wait for it (buffer of one).
-// Every wait has a deadline: a lost wake-up or deadlock yields `TIMEOUT ...` in the output.
+//   - every request passes its own cancellable context to the real Pull(ctx, image); the step
+//     `cancel <caller>` cancels the context of the Pull the caller is blocked in (record `x`; `y`
+//     if the caller is idle) and gives the caller a bounded time to react.  The code that exists
+//     does not look at the context while it waits: nothing happens.  A caller that does return
+//     the context's error is reported (`cN:err:ctx`) and stays busy for the scenario until the
+//     pull it asked for completes.
+//   - the scenario field `n` (default 2, at most 16) is the number of images scripted: scenarios
+//     with many distinct images whose pulls are in flight at the same time.
+// Every wait has a deadline: a lost wake-up or deadlock yields `TIMEOUT ... inflight=<images with
+// a pull in flight>` in the output; the harness itself never blocks on inFlightLock (TryLock with
+// a deadline), so a goroutine stuck inside a critical section cannot hang the test.
 //
 // Stream "park" (TestVerifC20Park) adds the step
 //
@@ -72,7 +82,8 @@ import (
 )
 
 const (
-	c20Imgs        = 2
+	c20Imgs        = 2  // images of a scenario that does not say (`n`)
+	c20MaxImgs     = 16 // most images a scenario may script
 	c20Callers     = 3
 	c20StepTimeout = 2 * time.Second
 	c20Fuse        = 2 // after this many TIMEOUT scenarios no further scenario is executed
@@ -85,8 +96,8 @@ type c20Mid struct {
 }
 
 type c20Step struct {
-	Op  string   `json:"op"` // req | done | park
-	C   int      `json:"c"`  // caller (req)
+	Op  string   `json:"op"` // req | done | park | cancel
+	C   int      `json:"c"`  // caller (req, cancel)
 	I   int      `json:"i"`  // image
 	R   string   `json:"r"`  // ok | err (done, park)
 	K   int      `json:"k,omitempty"`   // park: number of receivers served before the parking point
@@ -101,9 +112,17 @@ type c20FreeCfg struct {
 	Errmod  int   `json:"errmod"`
 	Files   int   `json:"files,omitempty"` // additional files in the pulled package ...
 	Fsize   int   `json:"fsize,omitempty"` // ... of this many bytes each
+	// Burst > 0: caller c's first request is for image c%images and the first Burst pull functions
+	// wait for each other (at most 300ms): a burst of requests for Burst distinct images whose
+	// pulls are all in flight at the same time (what a restart with many packages produces).
+	Burst int `json:"burst,omitempty"`
+	// Cancelmod > 0: about one request in Cancelmod is made with a context that is cancelled
+	// while the caller waits.
+	Cancelmod int `json:"cancelmod,omitempty"`
 }
 
 type c20Scn struct {
+	N     int         `json:"n,omitempty"` // number of images scripted (0: c20Imgs)
 	Steps []c20Step   `json:"steps,omitempty"`
 	Free  *c20FreeCfg `json:"free,omitempty"`
 }
@@ -137,9 +156,9 @@ type c20Ret struct {
 
 type c20Env struct {
 	mu       sync.Mutex
-	entered  [c20Imgs]int
-	released [c20Imgs]int
-	blocked  [c20Imgs][]*c20Pull
+	entered  []int
+	released []int
+	blocked  [][]*c20Pull
 	issued   int // Pull calls started on their own goroutine
 	returned int // ... and returned
 	rets     map[int]*c20Ret
@@ -152,7 +171,7 @@ func (e *c20Env) pull(
 	_ context.Context, _ client.Client, _ types.NamespacedName, ref string, _ ...crane.Option,
 ) (*packagetypes.RawPackage, error) {
 	img := c20ImgIdx(ref)
-	if img < 0 || img >= c20Imgs {
+	if img < 0 || img >= len(e.entered) {
 		return nil, fmt.Errorf("unexpected image %q", ref)
 	}
 	e.mu.Lock()
@@ -214,7 +233,12 @@ type c20Run struct {
 	got       map[int]*c20Ret         // all returned requests
 	probed    []int                   // request indexes (gates: negative) whose package is watched for foreign edits
 	recs      []string
-	order     [c20Imgs][]int          // requests registered for the image, in registration order
+	order     [][]int                 // requests registered for the image, in registration order
+	nimg      int                     // images scripted in this scenario
+	cancelOf  map[int]context.CancelFunc // request index -> cancel function of the context it passed
+	cancelled map[int]bool            // requests whose context the scenario has cancelled
+	early     map[int]bool            // cancelled requests that returned the context's error before their pull completed
+	doneReq   map[int]bool            // requests whose pull has completed (and, in a parked broadcast, whose turn it was)
 	extraG    int                     // goroutines the harness knows to be alive besides callers and pulls
 	gates     []chan response         // gate receivers of parked broadcasts (cleanup)
 	ngate     int
@@ -233,7 +257,7 @@ func (x *c20Run) settle(cond func() bool) bool {
 		ok := cond()
 		x.env.mu.Lock()
 		want := x.base + (x.env.issued - x.env.returned)
-		for i := 0; i < c20Imgs; i++ {
+		for i := 0; i < x.nimg; i++ {
 			want += x.env.entered[i] - x.env.released[i]
 		}
 		want += x.extraG
@@ -263,6 +287,9 @@ func c20ResStr(r *c20Ret) string {
 		}
 		if errors.Is(r.err, errC20Rescue) {
 			return "stuck"
+		}
+		if errors.Is(r.err, context.Canceled) {
+			return "err:ctx"
 		}
 		return "err:other"
 	case r.pkg == nil:
@@ -318,7 +345,7 @@ func (x *c20Run) record(tag string, suffix ...string) {
 	for _, idx := range fresh {
 		x.got[idx] = x.env.rets[idx]
 	}
-	entered, released := x.env.entered, x.env.released
+	entered, released := append([]int(nil), x.env.entered...), append([]int(nil), x.env.released...)
 	origins := x.env.origins[x.nOrigin:]
 	x.nOrigin = len(x.env.origins)
 	x.env.mu.Unlock()
@@ -332,10 +359,18 @@ func (x *c20Run) record(tag string, suffix ...string) {
 	sort.Slice(fresh, func(a, b int) bool { return x.callerOf[fresh[a]] < x.callerOf[fresh[b]] })
 	for _, idx := range fresh {
 		c := x.callerOf[idx]
-		if x.waitingOf[c] == idx {
+		res := c20ResStr(x.got[idx])
+		if res == "err:ctx" && !x.cancelled[idx] {
+			res = "err:other" // a context error nobody asked for
+		}
+		if res == "err:ctx" && !x.doneReq[idx] {
+			// a cancelled caller that gave up early: the scenario keeps it busy until the pull it
+			// asked for completes (that is when the code that exists answers it)
+			x.early[idx] = true
+		} else if x.waitingOf[c] == idx {
 			delete(x.waitingOf, c)
 		}
-		rs = append(rs, fmt.Sprintf("c%d:%s", c, c20ResStr(x.got[idx])))
+		rs = append(rs, fmt.Sprintf("c%d:%s", c, res))
 	}
 	// aliasing probe: every caller has edited what it was handed the moment it got it (c20Scribble:
 	// adds a key, changes a byte in place); the identities of everything handed out are compared
@@ -374,7 +409,7 @@ func (x *c20Run) record(tag string, suffix ...string) {
 		r = strings.Join(rs, ",")
 	}
 	var p, f []string
-	for i := 0; i < c20Imgs; i++ {
+	for i := 0; i < x.nimg; i++ {
 		p = append(p, fmt.Sprint(entered[i]))
 		f = append(f, fmt.Sprint(entered[i]-released[i]))
 	}
@@ -392,17 +427,20 @@ func (x *c20Run) launch(c, i int) (idx int, got chan (<-chan response)) {
 	idx = x.nreq
 	x.nreq++
 	x.callerOf[idx], x.imageOf[idx], x.waitingOf[c] = c, i, idx
+	// every request brings its own context (op `cancel` cancels it)
+	ctx, cancel := context.WithCancel(context.Background())
+	x.cancelOf[idx] = cancel
 	if c == c20SlowCaller {
 		got = make(chan (<-chan response), 1)
 		x.extraG++
-		go func() { got <- x.rm.handleRequest(context.Background(), img) }()
+		go func() { got <- x.rm.handleRequest(ctx, img) }()
 		return idx, got
 	}
 	x.env.mu.Lock()
 	x.env.issued++
 	x.env.mu.Unlock()
 	go func() {
-		pkg, err := x.rm.Pull(context.Background(), img)
+		pkg, err := x.rm.Pull(ctx, img)
 		c20Scribble(pkg)
 		x.env.mu.Lock()
 		x.env.rets[idx] = &c20Ret{pkg: pkg, err: err}
@@ -417,7 +455,9 @@ func (x *c20Run) launch(c, i int) (idx int, got chan (<-chan response)) {
 // the real handleRequest, keeping the channel for later).
 func (x *c20Run) request(c, i int) bool {
 	img := c20ImgName(i)
-	x.rm.inFlightLock.Lock()
+	if !x.lockWait() {
+		return false
+	}
 	n0 := len(x.rm.inFlight[img])
 	_, had := x.rm.inFlight[img]
 	x.rm.inFlightLock.Unlock()
@@ -436,7 +476,11 @@ func (x *c20Run) request(c, i int) bool {
 	}
 	x.order[i] = append(x.order[i], idx)
 	return x.settle(func() bool {
-		x.rm.inFlightLock.Lock()
+		// never wait for the lock: a request stuck inside handleRequest keeps it (the harness
+		// must time out then, not hang)
+		if !x.rm.inFlightLock.TryLock() {
+			return false
+		}
 		n := len(x.rm.inFlight[img])
 		x.rm.inFlightLock.Unlock()
 		if n != n0+1 { // receiver registered
@@ -470,6 +514,7 @@ func (x *c20Run) complete(i int, res string) (happened, ok bool) {
 		}
 	}
 	x.order[i] = nil
+	x.retire(waiters)
 	p.release <- res
 	return true, x.settle(func() bool {
 		x.env.mu.Lock()
@@ -483,6 +528,59 @@ func (x *c20Run) complete(i int, res string) (happened, ok bool) {
 	})
 }
 
+
+// retire: the pull these requests wait for completes (in a parked broadcast: it is their turn) -
+// that is when the code that exists answers them, so callers that gave up early (cancelled
+// context) are free again from here on.
+func (x *c20Run) retire(idxs []int) {
+	for _, idx := range idxs {
+		x.doneReq[idx] = true
+		if x.early[idx] {
+			if c := x.callerOf[idx]; x.waitingOf[c] == idx {
+				delete(x.waitingOf, c)
+			}
+			delete(x.early, idx)
+		}
+	}
+}
+
+// lockWait takes inFlightLock, giving up at the step deadline (false) instead of hanging with a
+// goroutine that is stuck inside the critical section.
+func (x *c20Run) lockWait() bool {
+	deadline := time.Now().Add(c20StepTimeout)
+	for n := 0; ; n++ {
+		if x.rm.inFlightLock.TryLock() {
+			return true
+		}
+		if n < 300 {
+			runtime.Gosched()
+			continue
+		}
+		if time.Now().After(deadline) {
+			return false
+		}
+		time.Sleep(20 * time.Microsecond)
+	}
+}
+
+// cancelCtx cancels the context of request idx and gives the caller the chance to react: a Pull
+// that selects on ctx.Done() returns within microseconds; one that does not (the code that
+// exists) never does, the wait is bounded.
+func (x *c20Run) cancelCtx(idx int) bool {
+	x.cancelled[idx] = true
+	x.cancelOf[idx]()
+	deadline := time.Now().Add(150 * time.Microsecond)
+	for n := 0; ; n++ {
+		x.env.mu.Lock()
+		done := x.env.rets[idx] != nil
+		x.env.mu.Unlock()
+		if done || (n >= 50 && n%10 == 0 && time.Now().After(deadline)) {
+			break
+		}
+		runtime.Gosched()
+	}
+	return x.settle(func() bool { return true })
+}
 
 // tryLock: is inFlightLock free?  (true: the harness holds it now.)  A broadcaster that holds the
 // lock holds it for the whole time it is parked, so a single success proves it does not.
@@ -516,7 +614,9 @@ func (x *c20Run) park(i int, res string, k int, mid []c20Mid) (happened bool, fa
 	// receivers before the gates and cannot get past the second one.
 	gateA, gateB := make(chan response), make(chan response)
 	x.gates = append(x.gates, gateA, gateB)
-	x.rm.inFlightLock.Lock()
+	if !x.lockWait() {
+		return true, "lock-not-free-before-the-broadcast"
+	}
 	recvs := x.rm.inFlight[img]
 	kk := k
 	if kk > len(recvs) {
@@ -563,6 +663,7 @@ func (x *c20Run) park(i int, res string, k int, mid []c20Mid) (happened bool, fa
 	if !gate(gateA) {
 		return true, "broadcast-did-not-reach-the-parking-point"
 	}
+	x.retire(first)
 	if !x.settle(answered(first)) {
 		return true, "receivers-before-the-parking-point-not-answered"
 	}
@@ -578,7 +679,7 @@ func (x *c20Run) park(i int, res string, k int, mid []c20Mid) (happened bool, fa
 
 	// requests arriving while the broadcast is parked
 	x.env.mu.Lock()
-	e0 := x.env.entered
+	e0 := append([]int(nil), x.env.entered...)
 	x.env.mu.Unlock()
 	type pend struct {
 		idx, img int
@@ -642,8 +743,9 @@ func (x *c20Run) park(i int, res string, k int, mid []c20Mid) (happened bool, fa
 	c20Scribble(x.got[-x.ngate].pkg)
 	x.watch(-x.ngate, x.got[-x.ngate].pkg)
 	x.extraG--
-	var wantLen, wantEntered [c20Imgs]int
-	for j := 0; j < c20Imgs; j++ {
+	x.retire(rest)
+	wantLen, wantEntered := make([]int, x.nimg), make([]int, x.nimg)
+	for j := 0; j < x.nimg; j++ {
 		if j != i {
 			wantLen[j] = len(x.order[j])
 		}
@@ -665,11 +767,13 @@ func (x *c20Run) park(i int, res string, k int, mid []c20Mid) (happened bool, fa
 				return false
 			}
 		}
-		x.rm.inFlightLock.Lock()
+		if !x.rm.inFlightLock.TryLock() {
+			return false
+		}
 		defer x.rm.inFlightLock.Unlock()
 		x.env.mu.Lock()
 		defer x.env.mu.Unlock()
-		for j := 0; j < c20Imgs; j++ {
+		for j := 0; j < x.nimg; j++ {
 			if len(x.rm.inFlight[c20ImgName(j)]) != wantLen[j] || x.env.entered[j] < wantEntered[j] {
 				return false
 			}
@@ -705,7 +809,7 @@ func (x *c20Run) cleanup() {
 		}
 	}
 	x.env.mu.Lock()
-	for i := 0; i < c20Imgs; i++ {
+	for i := 0; i < x.nimg; i++ {
 		for _, p := range x.env.blocked[i] {
 			x.env.released[i]++
 			p.release <- "ok"
@@ -738,24 +842,56 @@ func (x *c20Run) cleanup() {
 var c20Timeouts int
 
 func c20Exec(s c20Scn) string {
-	env := &c20Env{rets: map[int]*c20Ret{}}
+	nimg := s.N
+	if nimg == 0 {
+		nimg = c20Imgs
+	}
+	if nimg < 0 || nimg > c20MaxImgs {
+		return "BAD-SCN"
+	}
+	env := &c20Env{rets: map[int]*c20Ret{}, entered: make([]int, nimg), released: make([]int, nimg),
+		blocked: make([][]*c20Pull, nimg)}
 	rm := NewRequestManager(nil, nil, nil, types.NamespacedName{})
 	rm.pullImage = env.pull
-	x := &c20Run{env: env, rm: rm, base: runtime.NumGoroutine(),
+	x := &c20Run{env: env, rm: rm, base: runtime.NumGoroutine(), nimg: nimg, order: make([][]int, nimg),
+		cancelOf: map[int]context.CancelFunc{}, cancelled: map[int]bool{}, early: map[int]bool{}, doneReq: map[int]bool{},
 		callerOf: map[int]int{}, imageOf: map[int]int{}, waitingOf: map[int]int{}, got: map[int]*c20Ret{},
 		slow: map[int]<-chan response{}, idOwner: map[uintptr]int{}, idAliased: map[int]bool{}, idOrigin: map[int]bool{}, marked: map[int]bool{}}
+	defer func() {
+		for _, cancel := range x.cancelOf {
+			cancel()
+		}
+	}()
 	timeout := func(k int, what string) string {
 		c20Timeouts++
-		x.recs = append(x.recs, fmt.Sprintf("TIMEOUT step=%d %s", k, what))
+		env.mu.Lock()
+		inflight := 0
+		for i := 0; i < nimg; i++ {
+			if env.entered[i] > env.released[i] { // pull functions that have not been told to return
+				inflight++
+			}
+		}
+		env.mu.Unlock()
+		x.recs = append(x.recs, fmt.Sprintf("TIMEOUT step=%d %s inflight=%d", k, what, inflight))
 		x.cleanup()
 		return strings.Join(x.recs, ";")
 	}
 	for k, st := range s.Steps {
-		if st.I < 0 || st.I >= c20Imgs || st.C < 0 {
+		if st.I < 0 || st.I >= nimg || st.C < 0 {
 			x.recs = append(x.recs, "BAD-OP")
 			continue
 		}
 		switch st.Op {
+		case "cancel":
+			idx, busy := x.waitingOf[st.C]
+			if !busy {
+				x.record("y")
+				continue
+			}
+			if !x.cancelCtx(idx) {
+				return timeout(k, "goroutines-in-transit-after-cancel")
+			}
+			x.record("x")
 		case "req":
 			if _, busy := x.waitingOf[st.C]; busy {
 				x.record("b")
@@ -778,7 +914,7 @@ func c20Exec(s c20Scn) string {
 		case "park":
 			bad := st.K < 0
 			for _, m := range st.Mid {
-				if m.I < 0 || m.I >= c20Imgs || m.C < 0 {
+				if m.I < 0 || m.I >= nimg || m.C < 0 {
 					bad = true
 				}
 			}
@@ -798,7 +934,7 @@ func c20Exec(s c20Scn) string {
 		}
 	}
 	// drain: complete whatever is still in flight, in image order
-	for i := 0; i < c20Imgs; i++ {
+	for i := 0; i < nimg; i++ {
 		for {
 			happened, ok := x.complete(i, "ok")
 			if !ok {
@@ -881,8 +1017,41 @@ func c20Tags(s c20Scn, out string) []string {
 	if strings.Contains(out, "g2") || strings.Contains(out, "g3") {
 		add("late-request-fresh-pull")
 	}
-	if strings.Contains(out, "f=1,1") {
+	maxFlight, cancelled := 0, false
+	for _, rec := range strings.Split(out, ";") {
+		if strings.HasPrefix(rec, "x ") {
+			add("cancel-waiting-caller")
+			cancelled = true
+		} else if strings.HasPrefix(rec, "y ") {
+			add("cancel-idle-caller")
+		} else if cancelled && strings.HasPrefix(rec, "q ") {
+			add("request-after-cancel")
+		}
+		if k := strings.Index(rec, " f="); k >= 0 {
+			f := rec[k+3:]
+			if e := strings.IndexByte(f, ' '); e >= 0 {
+				f = f[:e]
+			}
+			if n := strings.Count(f, "1"); n > maxFlight {
+				maxFlight = n
+			}
+		}
+	}
+	switch {
+	case maxFlight >= 8:
+		add("images-in-flight>=8")
+	case maxFlight >= 5:
+		add("images-in-flight=5..7")
+	case maxFlight >= 3:
+		add("images-in-flight=3..4")
+	case maxFlight == 2:
 		add("two-images-in-flight")
+	}
+	if s.N > c20Imgs {
+		add("many-images-scenario")
+	}
+	if out == "BAD-SCN" {
+		add("malformed-scenario")
 	}
 	if reqs == 0 {
 		add("trivial")
@@ -927,8 +1096,19 @@ func TestVerifC20(t *testing.T) {
 	for i := 0; i < c20Imgs; i++ {
 		alpha = append(alpha, c20Step{Op: "done", I: i, R: "ok"}, c20Step{Op: "done", I: i, R: "err"})
 	}
+	// ... plus the cancellation of each caller's context
+	alphaC := append([]c20Step(nil), alpha...)
+	for c := 0; c < c20Callers; c++ {
+		alphaC = append(alphaC, c20Step{Op: "cancel", C: c})
+	}
 	alive := true
-	// (1) every sequence over the full alphabet (including disabled steps) up to length 3
+	t0 := time.Now()
+	lap := func(name string) {
+		r.Extra["ms_"+name] = time.Since(t0).Milliseconds()
+		t0 = time.Now()
+	}
+	// (1) every sequence over the full alphabet (including disabled steps and cancellations) up to
+	// length 3
 	count1 := 0
 	var all func(prefix []c20Step, depth int)
 	all = func(prefix []c20Step, depth int) {
@@ -942,11 +1122,12 @@ func TestVerifC20(t *testing.T) {
 		if depth == 3 {
 			return
 		}
-		for _, a := range alpha {
+		for _, a := range alphaC {
 			all(append(prefix, a), depth+1)
 		}
 	}
 	all(nil, 0)
+	lap("full_alphabet")
 	// (2) every sequence of ENABLED steps (a caller requests only while idle, a pull completes
 	// only while in flight) of length 4..L; disabled steps are no-ops, covered by (1) and (3).
 	L := r.Pick(7, 8)
@@ -986,7 +1167,57 @@ func TestVerifC20(t *testing.T) {
 		}
 	}
 	en(nil, [c20Callers]int{-1, -1, -1})
-	r.Extra["alphabet"] = len(alpha)
+	lap("enabled")
+	// (2c) every sequence of enabled steps of length 4..Lc in which at least one caller's context is
+	// cancelled while it waits (a context is cancelled once; cancelling an idle caller's is in (1)/(3))
+	Lc := r.Pick(5, 6)
+	count2c := 0
+	var enc func(prefix []c20Step, wait [c20Callers]int, canc [c20Callers]bool, ncanc int)
+	enc = func(prefix []c20Step, wait [c20Callers]int, canc [c20Callers]bool, ncanc int) {
+		if !alive {
+			return
+		}
+		if len(prefix) > 3 && ncanc > 0 {
+			alive = run(c20Scn{Steps: append([]c20Step(nil), prefix...)})
+			count2c++
+		}
+		if len(prefix) == Lc {
+			return
+		}
+		for _, a := range alphaC {
+			w, cc, nc := wait, canc, ncanc
+			switch a.Op {
+			case "req":
+				if w[a.C] >= 0 {
+					continue
+				}
+				w[a.C] = a.I
+			case "cancel":
+				if w[a.C] < 0 || cc[a.C] {
+					continue
+				}
+				cc[a.C] = true
+				nc++
+			default:
+				inflight := false
+				for c := range w {
+					if w[c] == a.I {
+						inflight = true
+						w[c], cc[c] = -1, false
+					}
+				}
+				if !inflight {
+					continue
+				}
+			}
+			enc(append(prefix, a), w, cc, nc)
+		}
+	}
+	enc(nil, [c20Callers]int{-1, -1, -1}, [c20Callers]bool{}, 0)
+	lap("enabled_cancel")
+	r.Extra["exhaustive_cancel_len"] = Lc
+	r.Extra["exhaustive_cancel_count"] = count2c
+	r.Extra["alphabet"] = len(alphaC)
 	r.Extra["exhaustive_full_alphabet_len"] = 3
 	r.Extra["exhaustive_full_alphabet_count"] = count1
 	r.Extra["exhaustive_enabled_len"] = L
@@ -997,8 +1228,10 @@ func TestVerifC20(t *testing.T) {
 		l := 8 + r.Rng.Intn(33)
 		var s c20Scn
 		for j := 0; j < l; j++ {
-			if r.Rng.Intn(5) < 3 {
+			if x := r.Rng.Intn(20); x < 11 {
 				s.Steps = append(s.Steps, c20Step{Op: "req", C: r.Rng.Intn(c20Callers), I: r.Rng.Intn(c20Imgs)})
+			} else if x < 13 {
+				s.Steps = append(s.Steps, c20Step{Op: "cancel", C: r.Rng.Intn(c20Callers)})
 			} else {
 				res := "ok"
 				if r.Rng.Intn(3) == 0 {
@@ -1010,7 +1243,7 @@ func TestVerifC20(t *testing.T) {
 		if k%50 == 0 { // malformed: unknown op / image the harness does not script
 			j := r.Rng.Intn(len(s.Steps))
 			if r.Rng.Intn(2) == 0 {
-				s.Steps[j].Op = "cancel"
+				s.Steps[j].Op = "abort"
 			} else {
 				s.Steps[j].I = c20Imgs + r.Rng.Intn(3)
 			}
@@ -1018,6 +1251,79 @@ func TestVerifC20(t *testing.T) {
 		alive = run(s)
 	}
 	r.Extra["random_count"] = n
+	lap("random")
+	// (4) MANY distinct images with a pull in flight at the same time (3..10; the streams above
+	// never have more than two).
+	// (4a) bursts: N callers ask for N distinct images - the request for image k arrives while
+	// k pulls are in flight -, one more caller joins one of the pulls, the pulls complete in
+	// forward / reverse / rotated order (every third one with an error), late requests start
+	// fresh pulls while the others are still in flight.
+	count4 := 0
+	for N := 3; N <= 10 && alive; N++ {
+		for _, join := range []int{0, N - 1} {
+			for ord := 0; ord < 3 && alive; ord++ {
+				s := c20Scn{N: N}
+				for j := 0; j < N; j++ {
+					s.Steps = append(s.Steps, c20Step{Op: "req", C: j, I: j})
+				}
+				s.Steps = append(s.Steps, c20Step{Op: "req", C: N, I: join})
+				for q := 0; q < N; q++ {
+					i := q
+					switch ord {
+					case 1:
+						i = N - 1 - q
+					case 2:
+						i = (q + N/2) % N
+					}
+					res := "ok"
+					if i%3 == 1 {
+						res = "err"
+					}
+					s.Steps = append(s.Steps, c20Step{Op: "done", I: i, R: res})
+					if q == 0 || q == N/2 { // a late request for the image just answered
+						s.Steps = append(s.Steps, c20Step{Op: "req", C: i, I: i})
+					}
+				}
+				alive = run(s)
+				count4++
+			}
+		}
+	}
+	// (4b) random sequences over 3..10 images and as many callers + 2, requests outweighing
+	// completions so that the number of images in flight climbs as far as the callers allow;
+	// cancellations mixed in
+	n4 := r.Pick(1500, 12000)
+	for k := 0; k < n4 && alive; k++ {
+		N := 3 + r.Rng.Intn(8)
+		callers := N + 2
+		l := 10 + r.Rng.Intn(50)
+		s := c20Scn{N: N}
+		for j := 0; j < l; j++ {
+			switch x := r.Rng.Intn(20); {
+			case x < 12:
+				s.Steps = append(s.Steps, c20Step{Op: "req", C: r.Rng.Intn(callers), I: r.Rng.Intn(N)})
+			case x < 14:
+				s.Steps = append(s.Steps, c20Step{Op: "cancel", C: r.Rng.Intn(callers)})
+			default:
+				res := "ok"
+				if r.Rng.Intn(3) == 0 {
+					res = "err"
+				}
+				s.Steps = append(s.Steps, c20Step{Op: "done", I: r.Rng.Intn(N), R: res})
+			}
+		}
+		if k%100 == 0 { // malformed: more images than the harness scripts / an image beyond `n`
+			if r.Rng.Intn(2) == 0 {
+				s.N = c20MaxImgs + 1 + r.Rng.Intn(3)
+			} else {
+				s.Steps[r.Rng.Intn(len(s.Steps))].I = N + r.Rng.Intn(3)
+			}
+		}
+		alive = run(s)
+		count4++
+	}
+	r.Extra["many_images_count"] = count4
+	lap("many_images")
 	r.Extra["timeouts"] = c20Timeouts
 }
 
@@ -1137,26 +1443,34 @@ func TestVerifC20Park(t *testing.T) {
 	for j := 0; j < n && alive; j++ {
 		l := 4 + r.Rng.Intn(21)
 		var s c20Scn
+		imgs, callers := c20Imgs, c20Callers
+		if j%4 == 3 { // broadcasts parked while many other images have a pull in flight
+			imgs = 3 + r.Rng.Intn(6)
+			callers = imgs + 2
+			s.N = imgs
+		}
 		for q := 0; q < l; q++ {
 			res := "ok"
 			if r.Rng.Intn(3) == 0 {
 				res = "err"
 			}
-			switch x := r.Rng.Intn(10); {
-			case x < 5:
-				s.Steps = append(s.Steps, c20Step{Op: "req", C: r.Rng.Intn(c20Callers), I: r.Rng.Intn(c20Imgs)})
-			case x < 7:
-				s.Steps = append(s.Steps, c20Step{Op: "done", I: r.Rng.Intn(c20Imgs), R: res})
+			switch x := r.Rng.Intn(20); {
+			case x < 10:
+				s.Steps = append(s.Steps, c20Step{Op: "req", C: r.Rng.Intn(callers), I: r.Rng.Intn(imgs)})
+			case x < 11:
+				s.Steps = append(s.Steps, c20Step{Op: "cancel", C: r.Rng.Intn(callers)})
+			case x < 14:
+				s.Steps = append(s.Steps, c20Step{Op: "done", I: r.Rng.Intn(imgs), R: res})
 			default:
-				st := c20Step{Op: "park", I: r.Rng.Intn(c20Imgs), R: res, K: r.Rng.Intn(5)}
+				st := c20Step{Op: "park", I: r.Rng.Intn(imgs), R: res, K: r.Rng.Intn(5)}
 				for m := r.Rng.Intn(4); m > 0; m-- {
-					st.Mid = append(st.Mid, c20Mid{r.Rng.Intn(c20Callers), r.Rng.Intn(c20Imgs)})
+					st.Mid = append(st.Mid, c20Mid{r.Rng.Intn(callers), r.Rng.Intn(imgs)})
 				}
 				s.Steps = append(s.Steps, st)
 			}
 		}
 		if j%50 == 0 { // malformed: a request for an image the harness does not script arrives meanwhile
-			s.Steps = append(s.Steps, c20Step{Op: "park", I: 0, R: "ok", K: 1, Mid: []c20Mid{{0, c20Imgs + r.Rng.Intn(3)}}})
+			s.Steps = append(s.Steps, c20Step{Op: "park", I: 0, R: "ok", K: 1, Mid: []c20Mid{{0, imgs + r.Rng.Intn(3)}}})
 		}
 		alive = run(s)
 	}
@@ -1167,12 +1481,26 @@ func TestVerifC20Park(t *testing.T) {
 // ---------------------------------------------------------------------------------------------
 // exploration: free-running goroutines (run with -race in the thorough tier)
 
+// c20FreeStats: what the last free-running configuration looked like (tags only, not compared)
+var c20FreeStats struct{ maxDistinct, cancelled, early int64 }
+
 func c20FreeExec(f c20FreeCfg) string {
-	if f.Images < 1 || f.Images > 8 || f.Callers < 1 || f.Rounds < 0 || f.Files < 0 || f.Fsize < 0 {
+	if f.Images < 1 || f.Images > c20MaxImgs || f.Callers < 1 || f.Rounds < 0 || f.Files < 0 || f.Fsize < 0 ||
+		f.Burst < 0 || f.Cancelmod < 0 {
 		return "BAD-OP"
 	}
-	var inflight, maxInflight, pulls, requests [8]atomic.Int64
-	var nPull atomic.Int64
+	var inflight, maxInflight, pulls, requests [c20MaxImgs]atomic.Int64
+	var nPull, distinct, maxDistinct, nCancelled, nEarly atomic.Int64
+	burst := f.Burst
+	if burst > f.Images {
+		burst = f.Images
+	}
+	if burst > f.Callers {
+		burst = f.Callers
+	}
+	var arrived atomic.Int64
+	gathered := make(chan struct{})
+	var gatherOnce sync.Once
 	rm := NewRequestManager(nil, nil, nil, types.NamespacedName{})
 	rm.pullImage = func(
 		_ context.Context, _ client.Client, _ types.NamespacedName, ref string, _ ...crane.Option,
@@ -1185,8 +1513,29 @@ func c20FreeExec(f c20FreeCfg) string {
 				break
 			}
 		}
+		if cur == 1 {
+			d := distinct.Add(1)
+			for {
+				m := maxDistinct.Load()
+				if d <= m || maxDistinct.CompareAndSwap(m, d) {
+					break
+				}
+			}
+			defer distinct.Add(-1)
+		}
 		pulls[img].Add(1)
 		n := nPull.Add(1)
+		if n <= int64(burst) {
+			// the pulls of the initial burst stay in flight until all of them are (or 300ms have
+			// passed: an implementation may bound the number of concurrent pulls, it must not hang)
+			if arrived.Add(1) == int64(burst) {
+				gatherOnce.Do(func() { close(gathered) })
+			}
+			select {
+			case <-gathered:
+			case <-time.After(300 * time.Millisecond):
+			}
+		}
 		switch (uint64(n)*2654435761 + uint64(f.Seed)) % 4 { // vary how long the pull stays in flight
 		case 1:
 			runtime.Gosched()
@@ -1223,11 +1572,29 @@ func c20FreeExec(f c20FreeCfg) string {
 			rng := rand.New(rand.NewSource(f.Seed*1000 + int64(c)))
 			for k := 0; k < f.Rounds; k++ {
 				img := rng.Intn(f.Images)
+				if burst > 0 && k == 0 {
+					img = c % f.Images
+				}
 				requests[img].Add(1)
-				pkg, err := rm.Pull(context.Background(), c20ImgName(img))
+				ctx, cancel := context.WithCancel(context.Background())
+				doCancel := f.Cancelmod > 0 && rng.Intn(f.Cancelmod) == 0
+				if doCancel {
+					// cancelled while the caller waits (or just before it starts to)
+					nCancelled.Add(1)
+					d := time.Duration(rng.Intn(60)) * time.Microsecond
+					go func() {
+						time.Sleep(d)
+						cancel()
+					}()
+				}
+				pkg, err := rm.Pull(ctx, c20ImgName(img))
+				cancel()
 				answered.Add(1)
 				var pe *c20Err
 				switch {
+				case doCancel && pkg == nil && errors.Is(err, context.Canceled):
+					// a cancelled caller may give up early (the code that exists does not)
+					nEarly.Add(1)
 				case err != nil && pkg == nil && errors.As(err, &pe) && pe.img == img:
 				case err == nil && pkg != nil && string(pkg.Files["id"]) == c20ImgName(img):
 					// the caller owns what it was handed: it must be as the pull function made it
@@ -1274,8 +1641,10 @@ func c20FreeExec(f c20FreeCfg) string {
 	case <-done:
 	case <-time.After(10 * time.Second):
 		c20Timeouts++
-		return fmt.Sprintf("TIMEOUT answered=%d of %d", answered.Load(), f.Callers*f.Rounds)
+		return fmt.Sprintf("TIMEOUT answered=%d of %d max-distinct-images-in-flight=%d", answered.Load(), f.Callers*f.Rounds,
+			maxDistinct.Load())
 	}
+	c20FreeStats.maxDistinct, c20FreeStats.cancelled, c20FreeStats.early = maxDistinct.Load(), nCancelled.Load(), nEarly.Load()
 	overlap, le, ge := 0, true, true
 	for i := 0; i < f.Images; i++ {
 		if maxInflight[i].Load() > 1 {
@@ -1303,7 +1672,7 @@ func TestVerifC20Race(t *testing.T) {
 			return
 		}
 		out := verifkit.Guard(func() string { return c20FreeExec(*s.Free) })
-		r.Emit(s, out, fmt.Sprintf("callers=%d", s.Free.Callers), fmt.Sprintf("images=%d", s.Free.Images))
+		r.Emit(s, out, append(c20FreeTags(), fmt.Sprintf("callers=%d", s.Free.Callers), fmt.Sprintf("images=%d", s.Free.Images))...)
 	}
 	for _, line := range r.Fixed() {
 		var s c20Scn
@@ -1324,8 +1693,36 @@ func TestVerifC20Race(t *testing.T) {
 			Callers: 2 + r.Rng.Intn(15), Images: 1 + r.Rng.Intn(3), Rounds: 20 + r.Rng.Intn(300),
 			Seed: r.Rng.Int63n(1 << 30), Errmod: r.Rng.Intn(5),
 		}
+		switch k % 4 {
+		case 1: // some contexts are cancelled while their callers wait
+			f.Cancelmod = 2 + r.Rng.Intn(8)
+		case 3: // many distinct images, the first pulls all in flight at the same time
+			f.Callers = 6 + r.Rng.Intn(11)
+			f.Images = 5 + r.Rng.Intn(8)
+			f.Burst = f.Images
+			f.Cancelmod = []int{0, 4, 9}[r.Rng.Intn(3)]
+		}
 		run(c20Scn{Free: f})
 	}
+}
+
+func c20FreeTags() []string {
+	var tags []string
+	switch d := c20FreeStats.maxDistinct; {
+	case d >= 8:
+		tags = append(tags, "images-in-flight>=8")
+	case d >= 5:
+		tags = append(tags, "images-in-flight=5..7")
+	case d >= 3:
+		tags = append(tags, "images-in-flight=3..4")
+	}
+	if c20FreeStats.cancelled > 0 {
+		tags = append(tags, "contexts-cancelled")
+	}
+	if c20FreeStats.early > 0 {
+		tags = append(tags, "cancelled-caller-gave-up-early")
+	}
+	return tags
 }
 
 // Stream "storm": the hook-free way to open the window inside the broadcast.  Many callers wait
@@ -1345,8 +1742,8 @@ func TestVerifC20Storm(t *testing.T) {
 			return
 		}
 		out := verifkit.Guard(func() string { return c20FreeExec(*s.Free) })
-		r.Emit(s, out, fmt.Sprintf("callers=%d", s.Free.Callers), fmt.Sprintf("images=%d", s.Free.Images),
-			fmt.Sprintf("pkgKiB=%d", s.Free.Files*s.Free.Fsize/1024/512*512))
+		r.Emit(s, out, append(c20FreeTags(), fmt.Sprintf("callers=%d", s.Free.Callers), fmt.Sprintf("images=%d", s.Free.Images),
+			fmt.Sprintf("pkgKiB=%d", s.Free.Files*s.Free.Fsize/1024/512*512))...)
 	}
 	for _, line := range r.Fixed() {
 		var s c20Scn
@@ -1367,6 +1764,20 @@ func TestVerifC20Storm(t *testing.T) {
 			Callers: 5 + r.Rng.Intn(6), Images: 1 + k%2, Rounds: 6 + r.Rng.Intn(6),
 			Seed: r.Rng.Int63n(1 << 30), Errmod: []int{0, 0, 7}[r.Rng.Intn(3)],
 			Files: 600 + r.Rng.Intn(900), Fsize: 4096,
+		}
+		run(c20Scn{Free: f})
+	}
+	// restart bursts: every caller's first request is for a different image and the first pulls are
+	// all in flight at the same time (5..12 distinct images), then everybody keeps asking; some
+	// contexts are cancelled while their callers wait.  A request manager that stops serving when
+	// many images are in flight leaves callers unanswered: watchdog, TIMEOUT.
+	nb := r.Pick(4, 16)
+	for k := 0; k < nb; k++ {
+		images := 5 + r.Rng.Intn(8)
+		f := &c20FreeCfg{
+			Callers: images + r.Rng.Intn(6), Images: images, Rounds: 8 + r.Rng.Intn(10),
+			Seed: r.Rng.Int63n(1 << 30), Errmod: []int{0, 3, 7}[r.Rng.Intn(3)],
+			Files: 4 + r.Rng.Intn(12), Fsize: 2048, Burst: images, Cancelmod: []int{0, 3, 8}[k%3],
 		}
 		run(c20Scn{Free: f})
 	}
